@@ -245,6 +245,41 @@ def run(ck: Check):
             if not torch.equal(got, want):
                 ck.disagree("eval mode of a converted layer is not the Boolean circuit of its logits", case,
                             signature={"what": "converted-model", "kind": "wrong"})
+    # converted stacks whose layers hand each other their eval outputs: a Walsh layer in front of a raw one (the raw einsum needs its
+    # operands in one dtype), a frozen thermometer in front of a raw convolution.  Eval must run and equal the float32 model
+    from torchlogix.layers import LearnableThermometerThresholding as _LT3
+    for front in ("walsh-conv", "walsh-dense", "frozen-thermometer"):
+        for dt in (torch.float64, torch.bfloat16, torch.float16):
+            torch.manual_seed(ck.seed + 25)
+            if front == "walsh-conv":
+                base = torch.nn.Sequential(
+                    LogicConv2d(in_dim=(4, 4), device="cpu", channels=1, num_kernels=2, tree_depth=1, receptive_field_size=2, parametrization="walsh", weight_init="random"),
+                    LogicConv2d(in_dim=(3, 3), device="cpu", channels=2, num_kernels=2, tree_depth=1, receptive_field_size=2, weight_init="random"))
+                x = (torch.rand(8, 1, 4, 4) > 0.5).float()
+            elif front == "walsh-dense":
+                base = torch.nn.Sequential(LogicDense(6, 8, device="cpu", parametrization="walsh", weight_init="random"),
+                                           LogicDense(8, 6, device="cpu", weight_init="random"))
+                x = (torch.rand(8, 6) > 0.5).float()
+            else:
+                th = _LT3([0.25, 0.5, 0.75])
+                th.freeze_thresholds()
+                base = torch.nn.Sequential(th, LogicConv2d(in_dim=(4, 4), device="cpu", channels=3, num_kernels=2, tree_depth=1, receptive_field_size=2, weight_init="random"))
+                x = torch.rand(8, 4, 4)
+            conv = _copy.deepcopy(base).to(dt).eval()
+            ref = _copy.deepcopy(conv).float().eval()
+            case = {"kind": "converted-stack", "front": front, "dtype": str(dt)}
+            ck.case(case, nontrivial=True, kind="converted-model")
+            try:
+                with torch.no_grad():
+                    xin = x.to(dt)
+                    got = conv(xin).float()
+                    want = ref(xin.float())
+            except Exception as e:
+                ck.disagree("eval mode of a converted stack raises (the layers hand each other outputs of different dtypes)", case, observed=repr(e)[:200],
+                            signature={"what": "converted-model", "kind": "error"})
+                continue
+            if not torch.equal(got, want):
+                ck.disagree("eval mode of a converted stack is not the Boolean circuit of its logits", case, signature={"what": "converted-model", "kind": "wrong"})
     # a whole MODEL converted to 16-bit floats with wide class groups: the per-class count (up to 700 / 2500 active neurons) is not
     # representable in bfloat16 (8 bits) / float16 (11 bits), so the count must not be accumulated in the model's dtype - the eval
     # output is still exactly count / tau
